@@ -39,6 +39,20 @@ func (prop) Generate(rng *rand.Rand, tier string) []corr.Case {
 		ops, _ := bftsim.GenHeavy(rng, 3*maxBlocks/4)
 		cases = append(cases, corr.Case{Ops: ops, Tag: "heavy"})
 	}
+	// fork switches (blocks deleted and replaced by a continuation with different BFT parameters at
+	// the same heights), discarded candidate blocks and restarts of the module object: the state must
+	// be a function of the chain which is left (oracle c02-history-dependent); generated last so that
+	// the cases above are unchanged for a given seed
+	for i := 0; i < n/3; i++ {
+		kind := 0
+		switch i % 6 {
+		case 4:
+			kind = 1
+		case 5:
+			kind = 2
+		}
+		cases = append(cases, corr.Case{Ops: bftsim.GenFork(rng, maxBlocks/2, kind), Tag: "fork"})
+	}
 	return cases
 }
 
@@ -52,6 +66,7 @@ func run(c corr.Case) []string {
 				node.Close()
 			}
 			node = bftsim.NewNode(atoi(w[1]), uint32(atoi(w[2])))
+			node.Track = true
 			out = append(out, "ok")
 			continue
 		}
@@ -153,10 +168,17 @@ func (prop) RunImpl(c corr.Case) ([]string, []corr.Fail) {
 			fails = append(fails, corr.Fail{Sig: "bft-panic", Detail: c.Ops[i] + ": " + out[i], Op: i})
 		}
 	}
+	fails = append(fails, checkHistory(c, out)...)
 	// monotonicity of the reported heights along the chain
 	var pm, pc uint64
+	var hist [][2]uint64 // heights before each block on the chain (restored by `revert`)
 	for i, o := range out {
+		if strings.HasPrefix(o, "ok ") && c.Ops[i] == "revert" && len(hist) > 0 {
+			pm, pc = hist[len(hist)-1][0], hist[len(hist)-1][1]
+			hist = hist[:len(hist)-1]
+		}
 		if strings.HasPrefix(o, "ok ") && strings.HasPrefix(c.Ops[i], "block") {
+			hist = append(hist, [2]uint64{pm, pc})
 			f := strings.Fields(o)
 			m, p := uint64(atoi(f[1])), uint64(atoi(f[2]))
 			if m < pm || p < pc {
@@ -169,9 +191,63 @@ func (prop) RunImpl(c corr.Case) ([]string, []corr.Fail) {
 		}
 		if strings.HasPrefix(c.Ops[i], "reset") {
 			pm, pc = 0, 0
+			hist = nil
 		}
 	}
 	return out, fails
+}
+
+// Winning returns the indices of the ops of the chain which is left at the end of the case: the ops
+// of deleted blocks (the block op, the parameter / key changes and the queries made while it was the
+// tip), the `revert`, `restart` and `tryblock` ops are dropped. out are the outputs of the case.
+func Winning(ops, out []string) (kept []int, forked bool) {
+	var marks []int
+	for i, op := range ops {
+		w := strings.Fields(op)
+		switch w[0] {
+		case "reset":
+			kept, marks = []int{i}, nil
+		case "block":
+			if strings.HasPrefix(out[i], "ok ") {
+				marks = append(marks, len(kept))
+			}
+			kept = append(kept, i)
+		case "revert":
+			forked = true
+			if strings.HasPrefix(out[i], "ok ") && len(marks) > 0 {
+				kept = kept[:marks[len(marks)-1]]
+				marks = marks[:len(marks)-1]
+			}
+		case "restart", "tryblock":
+			forked = true
+		default:
+			kept = append(kept, i)
+		}
+	}
+	return kept, forked
+}
+
+// checkHistory is the model-free oracle for "a function of the header sequence alone": a fresh node
+// which only ever sees the chain that is left (no deleted blocks, no dropped candidates, no restart)
+// must answer every op of that chain exactly like the node which went through the whole history
+// (complete BFT store dump after every block / parameter change, and every query).
+func checkHistory(c corr.Case, out []string) []corr.Fail {
+	kept, forked := Winning(c.Ops, out)
+	if !forked {
+		return nil
+	}
+	ops := make([]string, len(kept))
+	for j, i := range kept {
+		ops[j] = c.Ops[i]
+	}
+	fresh := run(corr.Case{Ops: ops})
+	for j, i := range kept {
+		if fresh[j] != out[i] {
+			return []corr.Fail{{Sig: "c02-history-dependent", Op: i,
+				Detail: fmt.Sprintf("%s: node with history: %s | node that only saw the final chain: %s", c.Ops[i], out[i], fresh[j])}}
+		}
+	}
+	return nil
 }
 
 func (prop) Classify(c corr.Case, out []string) string {
@@ -193,6 +269,36 @@ func (prop) Classify(c corr.Case, out []string) string {
 		if w[0] == "setparams" && blocks > 0 && strings.HasPrefix(o, "ok ") {
 			changes++
 		}
+	}
+	if c.Tag == "fork" {
+		rev, rs, try := 0, 0, 0
+		for i, o := range out {
+			switch strings.Fields(c.Ops[i])[0] {
+			case "revert":
+				if strings.HasPrefix(o, "ok ") {
+					rev++
+				}
+			case "restart":
+				rs++
+			case "tryblock":
+				try++
+			}
+		}
+		cl := ""
+		switch {
+		case rev > 0 && changes > 0:
+			cl = "fork-switch+paramchange"
+		case rev > 0:
+			cl = "fork-switch"
+		case rs > 0:
+			cl = "restart"
+		case try > 0:
+			cl = "dropped-candidate"
+		}
+		if cl != "" && adv {
+			cl += "+finality"
+		}
+		return cl
 	}
 	if c.Tag == "heavy" {
 		okp, errp := 0, 0
